@@ -83,7 +83,9 @@ Lemma icmp6Checksum_nil a b c d t src dst :
 Proof.
   intros H. unfold icmp6Checksum. rewrite H.
   replace (put32 (repeat 0 4) 0 (w32 (Z.of_nat 32 + vv_size []))) with (Some [0; 0; 0; 32]) by reflexivity.
-  cbn [obind upd]. unfold checksum_chunks. cbn [fold_left]. reflexivity.
+  cbn [obind upd]. change (vv_toView []) with (@nil Z).
+  (* since /repo commit 1404d7f the (empty) payload goes through header.Checksum once *)
+  rewrite EchoP.checksum_nil by apply EchoP.checksum_is_u16. reflexivity.
 Qed.
 
 (* the chain of partial sums over even-length pieces is the sum over their concatenation *)
